@@ -6,6 +6,7 @@ P=$1; WT=/tmp/wt_$P; L=$WT/out/verify.log
 {
 echo "== verify $P $(date)"
 cd $WT/src || exit 1
+if [ -z "$(git diff --stat)" ]; then git apply $WT/out/patch.diff && echo "(re-applied patch.diff)"; fi
 git diff --stat
 git diff > $WT/out/patch.verify.diff
 cmp -s $WT/out/patch.verify.diff $WT/out/patch.diff && echo "patch.diff matches worktree diff" || echo "NOTE: patch.diff differs from the worktree diff"
